@@ -139,6 +139,7 @@ type ClientCallback struct {
 	ID   uint64
 	TxID bitcoin.Hash32
 	Conn int // service connection count at that time
+	Next uint64 // RemoteClient.NextMessageID() read inside the callback (tx and update, handler h1)
 }
 
 type ClientRecorder struct {
@@ -154,6 +155,7 @@ type ClientRecorder struct {
 	ReadyErrs   []error
 	OnAccept    func()
 	Slow        func() time.Duration
+	Rewind      func() uint64 // ReadyMode "rewind": how far behind the declared id is
 }
 
 func (r *ClientRecorder) add(cb ClientCallback) {
@@ -172,13 +174,21 @@ func (r *ClientRecorder) add(cb ClientCallback) {
 func (r *ClientRecorder) HandleTx(ctx context.Context, tx *client.Tx) {
 	simrt.Eventf("ccb-tx", "%s id=%d %s", r.Name, tx.ID, shortHash(*tx.Tx.TxHash()))
 	r.last = tx.ID
-	r.add(ClientCallback{Kind: "tx", ID: tx.ID, TxID: *tx.Tx.TxHash()})
+	r.add(ClientCallback{Kind: "tx", ID: tx.ID, TxID: *tx.Tx.TxHash(), Next: r.nextNow()})
 }
 
 func (r *ClientRecorder) HandleTxUpdate(ctx context.Context, u *client.TxUpdate) {
 	simrt.Eventf("ccb-update", "%s id=%d %s", r.Name, u.ID, shortHash(u.TxID))
 	r.last = u.ID
-	r.add(ClientCallback{Kind: "update", ID: u.ID, TxID: u.TxID})
+	r.add(ClientCallback{Kind: "update", ID: u.ID, TxID: u.TxID, Next: r.nextNow()})
+}
+
+// nextNow is what an application that saves its resume point from inside the callback reads.
+func (r *ClientRecorder) nextNow() uint64 {
+	if r.Name != "h1" || r.cs.RC == nil {
+		return 0
+	}
+	return r.cs.RC.NextMessageID()
 }
 
 func (r *ClientRecorder) HandleHeaders(ctx context.Context, h *client.Headers) {
@@ -209,6 +219,18 @@ func (r *ClientRecorder) HandleMessage(ctx context.Context, p client.MessagePayl
 			id := r.last + 1
 			if len(r.readyCalls) == 0 && r.ReadyFirst != 0 {
 				id = r.ReadyFirst
+			}
+			r.callReady(id)
+		case "rewind":
+			// an application whose durable resume point lags behind what it was handed: it declares
+			// an id it has already seen
+			id := r.last + 1
+			if len(r.readyCalls) == 0 && r.ReadyFirst != 0 {
+				id = r.ReadyFirst
+			} else if r.Rewind != nil {
+				if k := r.Rewind(); k < id {
+					id -= k
+				}
 			}
 			r.callReady(id)
 		default:
